@@ -2,6 +2,7 @@ import BpModel.Proofs.Lexer
 import BpModel.Proofs.ExprFuel
 import BpModel.Proofs.FrontFuel
 import BpModel.Proofs.BridgeTables
+import BpModel.Proofs.Lex
 /-!
 # C09 — compilation is total: any input yields success or a parser error
 
@@ -19,8 +20,14 @@ ever the answer.
 * imports: the answer of the import recursion does not depend on the fuel beyond `|files| + 1`:
   every nested import hits the cyclic-import check or takes a file out of the set still available.
 
-Not modelled (tied by the correspondence streams only, hence `partial`): PLY's LALR engine and the
-grammar tables over arbitrary text, and the renderers as a whole (the known defects there — an
+* text level: the lexer model (`Lex.lex`: PLY's rule order, `\b` boundaries, lazy errors) terminates on
+  every text and numbers lines correctly; the grammar model (`Parse.parseText`, a predictive parser
+  written from `grammars.py`) is total by construction up to its fuel, whose adequacy is NOT proved
+  (the driver would answer `hang`, which the text-level correspondence of C08 would report).
+
+Not modelled (tied by the correspondence streams only, hence `partial`): PLY's LALR automaton itself
+(the text-level models are tied to it by executing both on the same texts), and the renderers as a
+whole (the known defects there — an
 empty enum, constants beyond 4300 digits — are listed in known_findings.json).
 -/
 namespace Bp.C09
@@ -63,6 +70,14 @@ theorem C09_eval_classified (env : String → Option Int) (text : String) :
 theorem C09_import_fuel (files : List Front.File) (trad : Bool) (main : String) (c : Front.Ctx) (line k : Nat) :
     Front.checkFile files trad (files.length + 1 + k) [] main c line = Front.checkFile files trad (files.length + 1) [] main c line :=
   Front.checkFile_fuel files trad main c line k
+
+/-- **the whole lexer terminates**: for every text, with one unit of fuel per character, the token
+list ends in the end of the text or in a lexical error — never in "out of fuel" -/
+theorem C09_lexer_total (text : List Char) : (Lex.lex text).2 ≠ some .outOfFuel := Lex.lex_total text
+
+/-- every token carries the line it is on: 1 + the number of NEWLINE tokens before it -/
+theorem C09_token_lines (text : List Char) : Lex.LinesOk 1 (Lex.lex text).1 :=
+  Lex.lexAll_lines text.length false 1 text
 
 /-- the translator tie: the model's escape table is `Lexer.escaping_chars` as lexer.py reads now -/
 theorem C09_escapes_tied (c : Char) :
